@@ -28,6 +28,9 @@ def gen_family(rng, n_roots=(1, 3), n_cond=(2, 8), n_rdm=(1, 4)):
     pat_desc = {'grp': gen.gen_grouping(rng, nc)}
     if rng.chance(0.7):
         pat_desc['extra'] = {'values': ['c%d' % u for u in cond_uids], 'container': rng.pick(['list', 'array'])}
+    if rng.chance(0.5):
+        # a strictly increasing numeric descriptor held as ndarray (positions, onsets ...)
+        pat_desc['pos'] = {'values': [10 * (i + 1) + 5 for i in range(nc)], 'container': 'array'}
     roots = []
     used = set()
     measure = rng.pick(['euclidean', None, 'corr'])
@@ -64,6 +67,7 @@ class RdmsOps:
             pat_tab.update(pt)
             nan_cells |= nc
         pool.tables = (rdm_tab, pat_tab, nan_cells)
+        pool.sem_checkers['rdms'] = (lambda slot, opname, prop='C10': pool.check_rdms(slot, opname, prop=prop), 'C10')
         for spec in family['roots']:
             obj = gen.build_rdms(spec)
             s = pool.add(obj, 'rdms', {'ru': list(spec['rdm_uids']), 'cu': list(spec['cond_uids']), 'missing': set()},
@@ -89,7 +93,7 @@ class RdmsOps:
 
     def _by(self, obj, axis, k):
         d = obj.rdm_descriptors if axis == 'rdm' else obj.pattern_descriptors
-        keys = [x for x in ('uid', 'grp', 'extra', 'index') if x in d]
+        keys = [x for x in ('uid', 'grp', 'extra', 'pos', 'index') if x in d]
         return keys[k % len(keys)]
 
     def _raise(self, opname, e, prop='C10'):
@@ -469,7 +473,7 @@ class RdmsOps:
                     for b in order[i + 1:]:
                         if a not in pc or b not in pc:
                             missing.add((rr, min(a, b), max(a, b)))
-            sem = {'ru': ru, 'cu': order, 'missing': missing, 'dropped_keys': ('grp', 'extra')}
+            sem = {'ru': ru, 'cu': order, 'missing': missing, 'dropped_keys': ('grp', 'extra', 'pos')}
         s = self.pool.add(res, 'rdms', sem, 'from_partials', [src.sid])
         self.pool.check_rdms(s, 'from_partials')
         # documented loss: only the chosen pattern descriptor survives from_partials (known finding if judged)
@@ -634,6 +638,8 @@ def _add_producers():
                 args.append(cands[o['u'] % len(cands)])
             try:
                 res = call(self, o, *[a.obj for a in args])
+            except (ImportError, NameError) as e:
+                raise HarnessError(f'producer {name}: {e!r}')
             except Exception as e:
                 self.ctx.probe(f'producer_raised:{name}')
                 self.pool.sweep(name, args=[a.sid for a in args])
@@ -719,14 +725,23 @@ def _add_producers():
     _producer('bootstrap_sample', _boot)
 
     def _folds(self, o, a):
-        from rsatoolbox.inference import sets_k_fold, sets_leave_one_out_rdm, sets_k_fold_pattern
-        k = o['a'][0] % 3
+        from rsatoolbox.inference.crossvalsets import (sets_k_fold, sets_leave_one_out_rdm, sets_k_fold_pattern,
+                                                        sets_random, sets_of_k_pattern)
+        k = o['a'][0] % 5
+        pdesc = self._by(a, 'pattern', o['a'][1])
+        rdesc = self._by(a, 'rdm', o['a'][2])
+        gp = len(set(normlist(a.pattern_descriptors[pdesc])))
+        gr = len(set(normlist(a.rdm_descriptors[rdesc])))
         if k == 0:
-            tr, te, ce = sets_k_fold(a, k_rdm=1, k_pattern=min(2, len(set(normlist(a.pattern_descriptors['index'])))), random=o['flag'])
+            tr, te, ce = sets_k_fold(a, k_rdm=min(2, gr), k_pattern=min(2, gp), random=o['flag'], pattern_descriptor=pdesc, rdm_descriptor=rdesc)
         elif k == 1:
-            tr, te, ce = sets_leave_one_out_rdm(a, 'index')
+            tr, te, ce = sets_leave_one_out_rdm(a, rdesc)
+        elif k == 2:
+            tr, te, ce = sets_k_fold_pattern(a, pdesc, k=min(2, gp), random=o['flag'])
+        elif k == 3:
+            tr, te, ce = sets_random(a, n_rdm=0 if gr < 2 else 1, n_pattern=0 if gp < 2 else 1, n_cv=2, pattern_descriptor=pdesc, rdm_descriptor=rdesc)
         else:
-            tr, te, ce = sets_k_fold_pattern(a, 'grp', k=1)
+            tr, te, ce = sets_of_k_pattern(a, pattern_descriptor=pdesc, k=1, random=o['flag'])
         return [tr[0][0], te[-1][0]]
     _producer('sets_k_fold', _folds)
 
